@@ -1870,10 +1870,12 @@ class GenericNote(TimedObject):
             End of note
 
         """
-        if self.tie_next is None:
-            return self.end
-        else:
-            return self.tie_next.end_tied
+        # walk the chain in a loop: a recursive definition fails with RecursionError
+        # for groups of about a thousand tied notes
+        note = self
+        while note.tie_next is not None:
+            note = note.tie_next
+        return note.end
 
     @property
     def duration_tied(self):
@@ -1887,10 +1889,13 @@ class GenericNote(TimedObject):
             Duration of note
 
         """
-        if self.tie_next is None:
-            return self.duration
-        else:
-            return self.duration + self.tie_next.duration_tied
+        # summed in a loop (see end_tied)
+        duration = self.duration
+        note = self.tie_next
+        while note is not None:
+            duration = duration + note.duration
+            note = note.tie_next
+        return duration
 
     @property
     def duration_from_symbolic(self):
@@ -1924,10 +1929,13 @@ class GenericNote(TimedObject):
             Description of return value
         """
 
-        if self.tie_prev:
-            return self.tie_prev.tie_prev_notes + [self.tie_prev]
-        else:
-            return []
+        notes = []
+        note = self.tie_prev
+        while note:
+            notes.append(note)
+            note = note.tie_prev
+        notes.reverse()
+        return notes
 
     @property
     def tie_next_notes(self):
@@ -1942,10 +1950,12 @@ class GenericNote(TimedObject):
             Description of return value
         """
 
-        if self.tie_next:
-            return [self.tie_next] + self.tie_next.tie_next_notes
-        else:
-            return []
+        notes = []
+        note = self.tie_next
+        while note:
+            notes.append(note)
+            note = note.tie_next
+        return notes
 
     # def iter_voice_prev(self):
     #     """TODO
